@@ -6,7 +6,7 @@ import json, os, re, subprocess, sys, time
 
 SEEDED = '/verif/seeded'
 # property whose check is expected to catch the change (default: the property in the id)
-CHECK_OVERRIDE = {'C19-r6m2': 'C11', 'C04-r5m1': 'C03', 'C14-r4m1': 'C03', 'C05-r4m1': 'C09', 'C04-r3m1': 'C03', 'C16-r3m1': 'C17', 'C09-r3m2': 'C20', 'C04-m1': 'C03', 'C04-r2m1': 'C03', 'C08-r2m2': 'C17', 'C02-r2m2': 'C20'}
+CHECK_OVERRIDE = {'C06-r6m1': 'C15', 'C19-r6m2': 'C11', 'C04-r5m1': 'C03', 'C14-r4m1': 'C03', 'C05-r4m1': 'C09', 'C04-r3m1': 'C03', 'C16-r3m1': 'C17', 'C09-r3m2': 'C20', 'C04-m1': 'C03', 'C04-r2m1': 'C03', 'C08-r2m2': 'C17', 'C02-r2m2': 'C20'}
 MECH = json.load(open('/verif/tools/seeded_mech.json'))
 
 def sh(cmd, **kw):
